@@ -2,6 +2,7 @@
    Only theorem statements; every proof is `exact <lemma>` from theories/HashProofs.v. *)
 From Coq Require Import ZArith List.
 From Sketchnu Require Import Machine Consts Hashes HashSpec HashProofs.
+From Sketchnu Require Kernels KernelTie.
 Import ListNotations.
 Open Scope Z_scope.
 
@@ -40,6 +41,17 @@ Print Assumptions C11_range64.
 Theorem C11_range32 : forall k seed, 0 <= fasthash32 k seed < 2^32 /\ 0 <= murmur3 k seed < 2^32.
 Proof. intros k seed. split; [exact (fasthash32_range k seed) | exact (murmur3_range k seed)]. Qed.
 Print Assumptions C11_range32.
+
+(* the loop-free helper kernels as regenerated from the source AST on this run (generated/Kernels.v)
+   are the functions the transcription is built from *)
+Theorem C11_source_tie :
+  (forall v t l, Kernels.gen_xor_shiftl v t l = xor_shiftl v t l) /\
+  (forall h, 0 <= h < 2^64 -> Kernels.gen_fhmix64 h = fhmix64 h) /\
+  (forall x y, Kernels.gen_xor32 x y = xor32 x y) /\ (forall x y, Kernels.gen_shift32r x y = shift32r x y) /\
+  (forall x y, Kernels.gen_shift32l x y = shift32l x y) /\ (forall x r, Kernels.gen_rotl32 x r = rotl32 x r) /\
+  (forall h, Kernels.gen_fmix32 h = fmix32 h).
+Proof. exact KernelTie.tie_hashes. Qed.
+Print Assumptions C11_source_tie.
 
 (* non-vacuity / known answers: the repository's own vectors (from the C++ originals),
    evaluated on the transcription and on the reference *)
